@@ -17,6 +17,8 @@
             minDiffReductionTime,targetTimespan,targetTimePerBlock,adjFactor,vbWindow,vbThreshold,bip34Hash(hex|-)
        dep  bit:start|-:timeout|-:minHeight:customThreshold:alwaysActive
        scriptbits  per tx "/"-separated, per input "failsAlways.failsUnder" ","-separated, ~ = no inputs
+  C01 rcmp <mode> <recipe> <facts as in blk> # <raw tokens as in rblk after the recipe>
+       "same" iff the harness's own facts ARE the description derived from the raw bytes
   C01 api <mode> <recipe> <same facts>   the stand-alone exported checks on the candidate, nothing delivered
   C01 par <blk|api case> | <case> | …    several cases run concurrently on separate chain instances
     tx version;lockTime;strippedSize;dupInputs;script0Len;legacySigops;hasWitness;overwrites;outs;ins
@@ -228,7 +230,31 @@ def handleRawDbg : List String → String
     | _, _, _, _, _ => "bad-op"
   | _ => "bad-op"
 
+/-- `rcmp`: the facts the harness extracted with its own arithmetic against the description derived from the raw
+    bytes through the sibling models: they must be the same description (deployment gates compared as booleans) -/
+def handleCmp : List String → String
+  | _mode :: _recipe :: p :: c :: h :: b :: s :: rest =>
+    -- rest = tx facts … "#" raw tokens
+    let txToks := rest.takeWhile (· != "#")
+    match parseDesc? (p :: c :: h :: b :: s :: txToks), (rest.dropWhile (· != "#")).drop 1 with
+    | some (d, _), net :: d1 :: d2 :: d3 :: now :: _sc :: bits :: blk :: anc =>
+      match pNet? net d1 d2 d3, now.toInt?, pBits? bits, hexToList? blk, anc.mapM hexToList? with
+      | some n, some now, some bits, some blk, some anc =>
+        match Raw.derive ⟨n, now, anc, blk, bits⟩ with
+        | some r =>
+          let diffs := (if r.C == d.C then [] else ["C"]) ++ (if r.H == d.H then [] else ["H"]) ++
+            (if r.B == d.B then [] else ["B"]) ++
+            (if r.csv == d.csv && r.segwit == d.segwit && r.taproot == d.taproot then [] else ["dep"]) ++
+            (if r.P.bip34HashOk == d.P.bip34HashOk && r.P.powLimit == d.P.powLimit &&
+                r.P.blocksPerRetarget == d.P.blocksPerRetarget then [] else ["P"])
+          if diffs.isEmpty then "same" else "diff:" ++ String.intercalate "," diffs
+        | none => "undecodable"
+      | _, _, _, _, _ => "bad-op"
+    | _, _ => "bad-op"
+  | _ => "bad-op"
+
 def handleOne : List String → String
+  | "rcmp" :: rest => handleCmp rest
   | "rdbg" :: rest => handleRawDbg rest
   | "rblk" :: rest => handleRaw rest
   | "blk" :: mode :: _recipe :: rest =>
